@@ -12,6 +12,7 @@ import Bourse.Lemmas.MatchFrame
 import Bourse.Lemmas.Reach
 import Bourse.Lemmas.RefineStep
 import Bourse.Lemmas.NoOverflow
+import Bourse.Lemmas.StampShift
 
 namespace Bourse.Props.C05
 open Bourse
@@ -193,5 +194,50 @@ theorem ties_lose_nothing_valid (t0 tick : Nat) (trading : Bool) (ops : List Op)
     SMap.Sorted b.bid.orders ∧ SMap.Sorted b.ask.orders ∧
     (∀ sd k k' id, (k, id) ∈ (b.side sd).orders → (k', id) ∈ (b.side sd).orders → k = k') :=
   ties_lose_nothing t0 tick trading h.tick_pos ops h.ops_valid h.noFault
+
+/-! ### The size of the stamps does not matter, only their order
+
+The stamp counter is a `u64` that only grows; a state whose counter is near `2^32` — where an
+implementation that packs, truncates or narrows stamps would go wrong — takes billions of queue
+insertions to reach. The correspondence check reaches it with the harness operation `jump k`: the
+book goes through its snapshot with `k` added to the counter and to every stored stamp. The
+theorems below say what that operation is in the model and that it is invisible. -/
+
+/-- In every reachable state the shifted book again satisfies the book invariant, is abstracted to
+the same reference-engine state, and is what loading the shifted snapshot (`jump k`) produces. -/
+theorem stamp_jump_is_a_valid_state (t0 tick : Nat) (trading : Bool) (ht : 0 < tick) (ops : List Op)
+    (hv : ∀ op ∈ ops, ValidOp op) (hnf : NoFault (Book.new t0 tick trading) ops) (k : Nat) :
+    let b := (Book.new t0 tick trading).run ops
+    Inv (b.shift k) ∧ abs (b.shift k) = abs b ∧ b.reloadShift k = b.shift k := by
+  have hi := inv_run (inv_new t0 tick trading ht) ops hv hnf
+  exact ⟨hi.shift k, abs_shift _ k, reloadShift_eq hi k⟩
+
+/-- **A stamp jump is invisible, now and under every continuation**: after any valid history, moving
+every stamp up by any `k` changes no observable, and every valid fault-free continuation produces
+the same results and the same complete observations (orders, trades, every view) from the shifted
+book as from the original. So whatever an implementation does differently after a `jump` is a
+failure of price-time priority, not an artefact of the jump. -/
+theorem stamp_offset_is_invisible (t0 tick : Nat) (trading : Bool) (ht : 0 < tick) (ops : List Op)
+    (hv : ∀ op ∈ ops, ValidOp op) (hnf : NoFault (Book.new t0 tick trading) ops) (k n : Nat)
+    (hn : ∀ i, i < n → i * tick < P32) (cont : List Op) (hvc : ∀ op ∈ cont, ValidOp op)
+    (hc : NoFault ((Book.new t0 tick trading).run ops) cont)
+    (hc' : NoFault (((Book.new t0 tick trading).run ops).shift k) cont) :
+    let b := (Book.new t0 tick trading).run ops
+    (b.shift k).observe n = b.observe n ∧ Book.trace n (b.shift k) cont = Book.trace n b cont := by
+  have hi := inv_run (inv_new t0 tick trading ht) ops hv hnf
+  have htk : ((Book.new t0 tick trading).run ops).tick = tick := by
+    rw [run_tick]; rfl
+  exact shift_silent hi k n (by rw [htk]; exact hn) cont hvc hc hc'
+
+/-- Non-vacuity: two asks tied at one price, a jump of `2^32 − 1` (the next stamp is `2^32`), a third
+ask at that price and a sweeping market buy: the three execute in queueing order, exactly as without
+the jump; the stored stamps straddle `2^32`. -/
+example :
+    let b0 := (Book.new 0 1 true).run [.cap .ask 5 1 (some 10), .cap .ask 5 2 (some 10)]
+    let b1 := (b0.reloadShift 4294967295).run [.cap .ask 5 3 (some 10), .cap .bid 15 4 none]
+    let b2 := b0.run [.cap .ask 5 3 (some 10), .cap .bid 15 4 none]
+    b1.trades.map (·.passive) = [0, 1, 2] ∧ b1.trades = b2.trades ∧
+    b1.orders.map (·.order) = b2.orders.map (·.order) ∧
+    b1.orders.map (·.key.st) = [4294967295, 4294967296, 4294967297, 0] := by decide +kernel
 
 end Bourse.Props.C05
